@@ -428,7 +428,7 @@ def run(ctx, res):
     res.extra["explanation"] = EXPLANATION
     res.assumptions += [
         "the camera does not change its shape between camera_get_image_shape and camera_get_frame (run-time; not decided)",
-        "packets start and end on frame boundaries if the channel delivers committed writes whole (C01)",
+        "packets start and end on frame boundaries if the channel delivers committed writes whole (C01; the per-call arithmetic of that - a reader's region ends at head or at high, high is the old head - is checked here too)",
     ]
     witnesses(ctx, res)
     n = producers(prog, res)
@@ -444,6 +444,11 @@ def run(ctx, res):
     res.require_min("R-INDEX", 2)
     if n < 2:
         raise AnalysisBroken("expected two frame producers (source, filter), found %d" % n)
+    # packets begin and end on commit boundaries: what the channel hands a reader ends at head or at
+    # high, and high is the head of the moment the writer wrapped (R-LIN READ / WRAP), laps included (R-INDUCT)
+    from ..channelarith import rule_linear
+    res.guard(rule_linear, prog, res)
+    res.require_min("R-LIN", 15)
     res.require_min("WITNESS", 7)
     res.require_min("R-PRODUCER", 12)
     res.require_min("R-STEP", 6)
